@@ -352,7 +352,8 @@ def gen_fea(rng, facts, want=None, collide=None, ext_split=False, mfs=False):
     # the mark writer generates abvm and blwm as a PAIR, either may be the user's own
     indic = []
     if facts["deva"] and want is None and rng.random() < 0.5:
-        indic = rng.choice([["abvm"], ["abvm"], ["blwm"], ["abvm", "blwm"]])
+        indic = rng.choice([["abvm"], ["abvm"], ["blwm"], ["abvm", "blwm"], ["dist"],
+                            ["dist"], ["dist", "abvm"]])
         if "abvm" in indic:
             out.append("markClass anusvara-deva <anchor 0 690> @UM_abvm;")
         if "blwm" in indic:
@@ -386,7 +387,10 @@ def gen_fea(rng, facts, want=None, collide=None, ext_split=False, mfs=False):
         used_tags.add(tag)
         blocks.append(("gsub", _block("feature", tag, lines)))
     for t in indic:
-        if t == "abvm":
+        if t == "dist":
+            # the kern writer's second tag (kerning of Indic scripts goes to 'dist')
+            lines = ["pos ka-deva ga-deva -33;"]
+        elif t == "abvm":
             lines = ["pos base ka-deva <anchor 350 690> mark @UM_abvm;"]
             if rng.random() < 0.5:
                 lines.append("pos base ga-deva <anchor 340 690> mark @UM_abvm;")
